@@ -241,7 +241,107 @@ func TestC09_Rapid(t *testing.T) {
 	})
 }
 
+// ---------- one discovery object over a membership history ----------
+
+type c09HistStep struct {
+	T    int `json:"t"`
+	M    int `json:"m"`
+	Gets int `json:"gets"`
+}
+
+type c09Hist struct {
+	N     int           `json:"n"`
+	Steps []c09HistStep `json:"steps"`
+}
+
+// c09ExecHistory: ONE discovery object (dynamic membership, numbers arrive over the event bus as they do from
+// PUT /membership/info and from the Couchbase / Kubernetes mechanisms) is asked after every membership change; the
+// answer must be the one a fresh object gives for the same (N, T, member number) - i.e. a pure function of them.
+func c09ExecHistory(h c09Hist) (d string) {
+	defer func() {
+		if r := recover(); r != nil {
+			d = fmt.Sprintf("N=%d: panic %v", h.N, r)
+		}
+	}()
+	cfg := &config.Dcp{}
+	cfg.Dcp.Group.Membership.Type = membership.DynamicMembershipType
+	bus := EventBus.New()
+	disc := stream.NewVBucketDiscovery(nil, cfg, h.N, bus)
+	defer disc.Close()
+	for i, st := range h.Steps {
+		bus.Publish(helpers.MembershipChangedBusEventName, &membership.Model{MemberNumber: st.M, TotalMembers: st.T})
+		want := c09Discovery(h.N, st.T, st.M)
+		for g := 0; g <= st.Gets; g++ {
+			got := disc.Get()
+			if len(got) != len(want) || len(got) == 0 || got[0] != want[0] || got[len(got)-1] != want[len(want)-1] {
+				return fmt.Sprintf("N=%d step %d: member %d/%d is given %s by an object with a history, %s by a fresh one (not a pure function of N, T, member number)",
+					h.N, i, st.M, st.T, c09Range(got), c09Range(want))
+			}
+			for j := 1; j < len(got); j++ {
+				if got[j] != got[j-1]+1 {
+					return fmt.Sprintf("N=%d step %d: member %d/%d: not contiguous at %d", h.N, i, st.M, st.T, j)
+				}
+			}
+		}
+	}
+	return ""
+}
+
+func c09Range(v []uint16) string {
+	if len(v) == 0 {
+		return "nothing"
+	}
+	return fmt.Sprintf("%d-%d", v[0], v[len(v)-1])
+}
+
+func TestC09_DiscoveryHistory(t *testing.T) {
+	rapid.Check(t, func(rt *rapid.T) {
+		h := c09Hist{N: rapid.SampledFrom([]int{1, 2, 3, 7, 8, 16, 64, 100, 128, 1024}).Draw(rt, "n")}
+		var prev c09HistStep
+		sameT, sameInfo := false, false
+		for i, k := 0, rapid.IntRange(1, 12).Draw(rt, "steps"); i < k; i++ {
+			st := c09HistStep{Gets: rapid.IntRange(0, 2).Draw(rt, "gets")}
+			switch cls := rapid.IntRange(0, 3).Draw(rt, "class"); {
+			case i > 0 && cls == 0: // same group size, another number (a member ahead of this one was replaced)
+				st.T = prev.T
+				st.M = rapid.IntRange(1, st.T).Draw(rt, "m")
+				sameT = sameT || st.M != prev.M
+			case i > 0 && cls == 1: // unchanged info published again
+				st.T, st.M = prev.T, prev.M
+				sameInfo = true
+			default:
+				maxT := h.N
+				if maxT > 40 && rapid.Bool().Draw(rt, "smallgroup") {
+					maxT = 8
+				}
+				st.T = rapid.IntRange(1, maxT).Draw(rt, "t")
+				st.M = rapid.IntRange(1, st.T).Draw(rt, "m")
+			}
+			h.Steps = append(h.Steps, st)
+			prev = st
+		}
+		if d := c09ExecHistory(h); d != "" {
+			violation(rt, "C09", "c09hist", h, "%s", d)
+		}
+		labels := []string{"discovery_histories"}
+		if sameT {
+			labels = append(labels, "renumbered_same_group_size")
+		}
+		if sameInfo {
+			labels = append(labels, "same_info_again")
+		}
+		record("C09", h, sameT, labels...)
+	})
+}
+
 func init() {
+	registerReplay("c09hist", func(raw json.RawMessage) string {
+		var h c09Hist
+		if err := json.Unmarshal(raw, &h); err != nil {
+			return "bad scenario: " + err.Error()
+		}
+		return c09ExecHistory(h)
+	})
 	registerReplay("c09chunk", func(raw json.RawMessage) string {
 		var c c09Case
 		if err := json.Unmarshal(raw, &c); err != nil {
